@@ -107,7 +107,10 @@ static int do_io(MPI_File fh, bool wr, bool at, bool coll, MPI_Offset offset, vo
     if (coll) {
         s = fcoll_enter(f, me, kind, -1);
         // 0: eager (no synchronisation), 1: wait for everybody then transfer, 2: transfer then wait
-        mode = g->rng_mpi.chance(g->cfg.sync_fcoll) ? 1 + (int)g->rng_mpi.below(2) : 0;
+        // Every MPI-IO implementation synchronises a collective data-transfer call at least once (offset exchange); the standard does not
+        // strictly require it, but alarms that need a rank to *finish* a collective transfer before another rank has *entered* it would be
+        // disputed, so the simulator never does that: all ranks enter, then each transfers at its own pace.
+        mode = 1;   // (mode 2, transfer-then-leave, let a rank transfer in call k+1 before a peer had transferred in call k: no real MPI-IO does that)
         if (mode == 1) fcoll_wait(f, s, nm);
     }
     View &v = f.views[me];
